@@ -2,6 +2,9 @@ module verif/harness
 
 go 1.16
 
-require github.com/chihaya/chihaya v0.0.0
+require (
+	github.com/alicebob/miniredis v2.5.0+incompatible
+	github.com/chihaya/chihaya v0.0.0
+)
 
 replace github.com/chihaya/chihaya => /repo
